@@ -376,7 +376,7 @@ RowDom == 1..3
 UseTab == <<1, -1, 2, 3>>
 
 BPSpace == [core : 1..Len(CoreTab), ali : 1..Len(AliTab), cst : 1..Len(CstTab), par : 1..Len(ParTab),
-            elim : 1..Len(ElimTab), ini : IniDom, row : RowDom, use : 1..Len(UseTab), rev : 0..1, meta : 0..0]
+            elim : 1..Len(ElimTab), ini : IniDom, row : RowDom, use : 1..Len(UseTab), rev : 0..1, meta : 0..1000000]
 
 (* values of the free quantities, in order of appearance *)
 SolTab == <<2, -3, 5, 7, -1, 4, -2, 3, 6, -5, 8, -7>>
@@ -384,15 +384,15 @@ SolTab == <<2, -3, 5, 7, -1, 4, -2, 3, 6, -5, 8, -7>>
 -----------------------------------------------------------------------------
 (* Model derivation.  An accumulator is folded over a sequence of items. *)
 Acc0 == [cat |-> [x \in {} |-> ""], sol |-> [x \in {} |-> 0], val |-> [x \in {} |-> NaN],
-         eqs |-> <<>>, ieqs |-> <<>>, nfree |-> 0, order |-> <<>>]
+         eqs |-> <<>>, ieqs |-> <<>>, nfree |-> 0, order |-> <<>>, attr |-> [x \in {} |-> DefaultAttr]]
 
 Ext(f, x, y) == TLCEval([z \in DOMAIN f \cup {x} |-> IF z = x THEN y ELSE f[z]])
 
 Free(acc, n, c) ==      \* a quantity whose value is chosen
     [acc EXCEPT !.cat = Ext(@, n, c), !.sol = Ext(@, n, SolTab[acc.nfree + 1]),
-                !.nfree = @ + 1, !.order = Append(@, n)]
+                !.nfree = @ + 1, !.order = Append(@, n), !.attr = Ext(@, n, DefaultAttr)]
 Given(acc, n, c, x) ==  \* a quantity with a derived value x
-    [acc EXCEPT !.cat = Ext(@, n, c), !.sol = Ext(@, n, x), !.order = Append(@, n)]
+    [acc EXCEPT !.cat = Ext(@, n, c), !.sol = Ext(@, n, x), !.order = Append(@, n), !.attr = Ext(@, n, DefaultAttr)]
 Eq(l, r) == [l |-> l, r |-> r]
 AddEq(acc, l, r)  == [acc EXCEPT !.eqs = Append(@, Eq(l, r))]
 AddIEq(acc, l, r) == [acc EXCEPT !.ieqs = Append(@, Eq(l, r))]
@@ -565,9 +565,38 @@ AddIni(acc, b) ==
             ELSE AddIEq(G[i-1], MkMul(Lit(2), Sym(extra[i])), Lit(2 * acc.sol[extra[i]]))
     IN  G[Len(extra)]
 
-(* C16 family: alias classes with metadata.  meta = 0 for the C14/C15 families.  The attribute
-   vectors come from the harness (IOEnv.META_FILE, drawn from the seed) or from MetaBase. *)
+(* C16 family: one alias class with metadata.  meta = 0 for the C14/C15 families; meta = i > 0 selects entry i
+   of IOEnv.META_FILE (drawn by the harness from the seed; the model and every expected value are derived here):
+     [tgt: "S" | "A" | "I" | "D"   what the chain hangs on (state x1, algebraic a1, input u1, derivative der(x1)),
+      links: <<[s: sign, f: spelling, t: "t" | "prev"], ...>>   alias variables v1, v2, ...
+      attrs: <<[min, max, nom, fixed, sset, start], ...>>   for the target (not for "D") and v1, v2, ... ]  *)
+MetaFile == JsonDeserialize(IOEnv.META_FILE)
+AttrOf(r) == [min |-> r.min, max |-> r.max, nom |-> r.nom, fixed |-> r.fixed, sset |-> r.sset, start |-> r.start]
+BuildMeta(e) ==
+    LET a1 == IF e.tgt = "A" THEN Free(Acc0, "a1", "A")
+              ELSE IF e.tgt = "I" THEN Free(Acc0, "u1", "I")
+              ELSE Free(Free(Acc0, "x1", "S"), "der(x1)", "D")
+        tname == CASE e.tgt = "A" -> "a1" [] e.tgt = "I" -> "u1" [] e.tgt = "S" -> "x1" [] e.tgt = "D" -> "der(x1)"
+        a2 == CASE e.tgt = "A" -> LET q == RowEq(<<MkMul(Lit(3), Sym("a1"))>>, 1, a1.sol) IN AddEq(a1, q.l, q.r)
+                [] e.tgt = "I" -> a1
+                [] OTHER -> LET q == RowEq(<<Sym("der(x1)"), Sym("x1")>>, 1, a1.sol) IN AddEq(a1, q.l, q.r)
+        F[i \in 0..Len(e.links)] ==
+            IF i = 0 THEN a2
+            ELSE LET v == AliasName[i]
+                     t == IF e.links[i].t = "prev" /\ i > 1 THEN AliasName[i - 1] ELSE tname
+                     q == AliasEq(v, t, e.links[i].s, e.links[i].f)
+                 IN  AddEq(Given(F[i - 1], v, "A", e.links[i].s * F[i - 1].sol[t]), q.l, q.r)
+        a3 == F[Len(e.links)]
+        lastv == AliasName[Len(e.links)]
+        a4 == AddEq(Given(a3, "z", "A", 2 * a3.sol[lastv] + 1), Sym("z"), MkAdd(MkMul(Lit(2), Sym(lastv)), Lit(1)))
+        named == IF e.tgt = "D" THEN [i \in 1..Len(e.links) |-> AliasName[i]]
+                 ELSE <<tname>> \o [i \in 1..Len(e.links) |-> AliasName[i]]
+    IN  [a4 EXCEPT !.attr = [x \in DOMAIN @ |->
+                               IF \E i \in DOMAIN named : named[i] = x
+                               THEN AttrOf(e.attrs[CHOOSE i \in DOMAIN named : named[i] = x]) ELSE @[x]]]
+
 Build(b) ==
+    IF b.meta # 0 THEN BuildMeta(MetaFile[b.meta]) ELSE
     LET a1 == AddCore(Acc0, b, 1)
         a2 == AddPars(a1, Pars(b), 1)
         a3 == AddAli(a2, b, AliTab[b.ali], 1, "")
@@ -631,6 +660,7 @@ Groups == CASE Family = "base" -> {[bp |-> b, optsets |-> <<>>] : b \in BaseBPs}
             [] Family = "directed" -> {[bp |-> b, optsets |-> <<>>] : b \in DirectedBPs}
             [] Family = "file" -> {[bp |-> b, optsets |-> <<>>] : b \in FileBPs}
             [] Family = "pairs" -> PairGroups
+            [] Family = "meta" -> {[bp |-> [BaseBP EXCEPT !.meta = i], optsets |-> <<>>] : i \in DOMAIN MetaFile}
 OptsOf(g) == IF Family = "pairs" THEN {ToSet(g.optsets[i]) : i \in DOMAIN g.optsets} ELSE OptSets
 
 (* the blueprint describes a model with a unique solution *)
@@ -650,11 +680,11 @@ Init ==
          /\ sol = ExtSol(bp, m)
          /\ cat = m.cat
          /\ val = m.val
-         /\ attr = [x \in DOMAIN m.cat |-> DefaultAttr]
+         /\ attr = m.attr
          /\ eqs = Resid(m.eqs)
          /\ ieqs = Resid(m.ieqs)
          /\ orig = [cat |-> m.cat, order |-> m.order, val |-> m.val, eqs |-> m.eqs, ieqs |-> m.ieqs,
-                    attr |-> [x \in DOMAIN m.cat |-> DefaultAttr]]
+                    attr |-> m.attr]
     /\ rel = {}
     /\ newc = [x \in {} |-> 0]
     /\ pc = 1 /\ iter = 1 /\ algLeft = 0 /\ status = "run" /\ nonaffine = FALSE
@@ -1068,6 +1098,12 @@ Summary(c, E, R) == [S |-> NamesOf(c, {"S"}), D |-> NamesOf(c, {"D"}), A |-> Nam
 
 (* shape tags: the class of a program, used by the harness to group verdicts *)
 Tags(b) ==
+    IF b.meta # 0
+    THEN LET e == MetaFile[b.meta] IN
+         {"tgt:" \o e.tgt, "len:" \o ToString(Len(e.links))}
+         \cup {IF e.links[i].s = 1 THEN "ali:pos" ELSE "ali:neg" : i \in DOMAIN e.links}
+         \cup {"ali:f" \o ToString(e.links[i].f) : i \in DOMAIN e.links}
+    ELSE
     LET al == AliTab[b.ali]  cs == CstTab[b.cst]  ps == Pars(b)  es == ElimTab[b.elim] IN
     {"core:" \o ToString(b.core), "row:" \o ToString(b.row), "ini:" \o ToString(b.ini)}
     \cup (IF al = <<>> THEN {"ali:none"}
